@@ -143,6 +143,11 @@ func (ms *Modules) resolveIdentities() []error {
 
 	var errs []error
 
+	// Start from an empty dictionary: an identity that an earlier run filed
+	// must not stay resolvable when the modules loaded since then no longer
+	// define it (a newer revision of a submodule, say).
+	ms.typeDict.identities.dict = map[string]resolvedIdentity{}
+
 	// Across all modules, read the identity values that have been extracted
 	// from them, and compile them into a "fully resolved" map that means that
 	// we can look them up based on the 'real' prefix of the module and the
